@@ -20,10 +20,10 @@ const (
 
 // Obligation is one construct a rule inspected and its verdict.
 type Obligation struct {
-	Rule   string   // e.g. C14.resched
-	Key    string   // rule|function|construct -- position free, used to match known findings
-	Where  string   // file:line (diagnostic only)
-	Detail string   // what was found / expected
+	Rule   string // e.g. C14.resched
+	Key    string // rule|function|construct -- position free, used to match known findings
+	Where  string // file:line (diagnostic only)
+	Detail string // what was found / expected
 	Status Status
 	Trace  []string // path of blocks / call chain / event trace for violations
 }
